@@ -171,8 +171,66 @@ def _cold(cfgs):
     return [cl.call("vlib.props.c17._probe", c) for c in cfgs]
 
 
+def run_seq(payload):
+    """(in a pristine child) valid tuples probed in order in ONE process; stops at the first that fails."""
+    out = []
+    for t in payload["seq"]:
+        o = _probe(t)
+        out.append(o)
+        if o["viol"]:
+            break
+    return out
+
+
+def sequences(tier):
+    """Ordered histories of valid constructions in one process: a valid tuple must yield its stream
+    whatever was built before (tables kept from a smaller / larger / neighbouring problem). Sweeps of
+    max_n up, down and in steps of two with everything else fixed, and a rotation through the Revolve
+    family; the pool's own order (and the cold probes) never produce these."""
+    N = 12 if tier == "quick" else 24
+    seqs = []
+    fam = ("Revolve", "DiskRevolve", "PeriodicDiskRevolve", "HRevolve")
+
+    def mk(c, n, a, c8):
+        if c == "Multistage":
+            return {"cls": c, "n": n, "ram": a // 2, "disk": a - a // 2, "traj": "maximum", "passes": 1}
+        if c == "Mixed":
+            return {"cls": c, "n": n, "s": a, "storage": "DISK", "passes": 1}
+        t = {"cls": c, "n": n, "s": a, "c8": list(c8), "passes": 1}
+        if c == "HRevolve":
+            t["d"] = 1
+        return t
+    for c in fam + ("Multistage", "Mixed"):
+        for a in (1, 2, 3):
+            for c8 in ([8, 8, 16, 16], [16, 8, 4, 8]):
+                if c in ("Multistage", "Mixed") and c8[0] != 8:
+                    continue
+                up = [mk(c, n, a, c8) for n in range(1, N + 1)]
+                seqs += [up, up[::-1], up[::2] + up[1::2], [up[0], up[2], up[1], up[5], up[3], up[4], up[-1], up[-2]]]
+    for a in (1, 2):
+        for c8 in ([8, 8, 16, 16], [16, 8, 4, 8]):
+            for shift in range(4):
+                seqs.append([mk(fam[(i + shift) % 4], 1 + i, a, c8) for i in range(N)])
+                seqs.append([mk(fam[(i + shift) % 4], N - i, a, c8) for i in range(N)])
+    return seqs
+
+
+def _seq_jobs(seqs):
+    from .. import forkserver
+    cl = forkserver.client()
+    return [(q, cl.call("vlib.props.c17.run_seq", {"seq": q})) for q in seqs]
+
+
 def check_witness(data, show=False):
     w = data["witness"]
+    if isinstance(w, dict) and "sequence" in w:
+        q = w["sequence"]
+        res = R.pristine_call("vlib.props.c17.run_seq", {"seq": q})
+        if show:
+            print("replaying in one fresh process: " + " ; then ".join(C.describe(t) for t in q))
+        if len(res) != len(q):
+            return []
+        return [((C.variant(q[-1]), pred), w, detail + " [after %d earlier construction(s) in the same process]" % (len(q) - 1), "sequence") for pred, detail in res[-1]["viol"]]
     out = R.pristine_call("vlib.props.c17._probe", w)      # cold process: independent of what ran before
     if show:
         print("replaying %s: domain=%s outcome=%s" % (C.describe(w), out["dom"], out["outcome"]))
@@ -214,12 +272,48 @@ def run(prop, args):
         for pred, detail in out["viol"]:
             rep.add_violation((C.variant(t), pred), t, detail)
     rep.extra["outcomes"] = outcomes
+    seqs = sequences(tier)
+    nprobe = 0
+    for part in R.pmap(_seq_jobs, R.chunks(seqs, max(1, len(seqs) // 32 + 1)), chunksize=1):
+        for q, results in part:
+            nprobe += len(results)
+            rep.evaluations += len(results)
+            if any(o["status"] == "inconclusive" for o in results):
+                rep.inconclusive += 1
+                continue
+            rep.nontrivial.add("seq:" + C.chash({"q": q}))
+            k = len(results)
+            for pred, detail in results[-1]["viol"]:
+                if k == 1:
+                    rep.add_violation((C.variant(q[0]), pred), q[0], detail)
+                else:
+                    rep.add_violation((C.variant(q[k - 1]), pred), {"sequence": q[:k]}, detail + " [after %d earlier construction(s) in the same process]" % (k - 1), kind="sequence")
+    rep.exhaustive.append({"box": "ordered histories in one pristine process: max_n swept up / down / in steps of two / shuffled with units and costs fixed (Revolve family, Multistage, Mixed; 1..3 units; 2 cost vectors), and rotations through the Revolve family",
+                           "cases": len(seqs), "exhaustive": True})
+    rep.extra["sequence_probes"] = nprobe
     R.run_regress(rep, check_witness)
     rep.assumptions = ["documented domain as in DESIGN 2.1; negative unit counts and non-positive costs are outside every documented domain and outside the statement's invalid list, never generated",
                        "Revolve family with max_n=1 and 0 RAM units: statement and class docstring disagree, either behaviour accepted"]
 
     def shrink(b, w):
         from .. import forkserver
+        if "sequence" in w:
+            def fails_seq(q):
+                res = R.pristine_call("vlib.props.c17.run_seq", {"seq": q})
+                return len(res) == len(q) and any(p == b[1] for p, _ in res[-1]["viol"])
+            q = list(w["sequence"])
+            if not fails_seq(q):
+                return None
+            i = 0
+            while i < len(q) - 1:
+                cand = q[:i] + q[i + 1:]
+                if fails_seq(cand):
+                    q = cand
+                else:
+                    i += 1
+            res = R.pristine_call("vlib.props.c17.run_seq", {"seq": q})
+            d = [d for p, d in res[-1]["viol"] if p == b[1]]
+            return {"sequence": q}, d[0] + (" [after %d earlier construction(s) in the same process]" % (len(q) - 1) if len(q) > 1 else "")
 
         def det(c):
             o = forkserver.client().call("vlib.props.c17._probe", c)     # every candidate in a pristine child
